@@ -2,6 +2,7 @@
 and the UML oracles (Lean spec ↔ real code, action projection) for C01, C02, C03, C22, C24."""
 import os, sys, json, re, glob
 import charts, leanrun
+from charts import mhsm
 
 VERIF = os.path.dirname(os.path.dirname(os.path.abspath(__file__)))
 
@@ -102,6 +103,9 @@ def explore(run, focus, n_random, hosts=("plain",), malformed_rate=0.0, exhausti
         c = charts.gen_chart(rng, malformed=mal)
         if focus == "C03":
             ops = [(0, rng.randrange(1, c.n + 1))]
+            if rng.random() < 0.3:
+                # the same chart object started again (after some events or at once)
+                ops += [(1, rng.randrange(c.nsig)) for _ in range(rng.randint(0, 2))] + [(0, rng.randrange(1, c.n + 1))]
         elif focus == "C22":
             ops = gen_ops(rng, c, rng.randint(2, nops), q_rate=0.6)
         elif focus == "C23":
@@ -116,6 +120,9 @@ def explore(run, focus, n_random, hosts=("plain",), malformed_rate=0.0, exhausti
     for (c, ops, src, mal), mo, so in zip(cases, model_out, spec_out):
         host = hosts[run.evaluations % len(hosts)]
         spied = host != "plain" and (run.evaluations // len(hosts)) % 2 == 0
+        if focus in ("C22", "C23") and (run.evaluations // (2 * len(hosts))) % 3 == 0:
+            # decorated handlers on a host without instrumentation
+            host, spied = ("plain", True) if host == "plain" else ("queued-off", True)
         real, hsm, fns = charts.run_real(c, ops, host=host, spied=spied)
         model = mo.split(" | ")
         spec = so.split(" | ")
@@ -325,27 +332,86 @@ def cj_upto(cj, idx):
     return d
 
 
+def explore_orthogonal(run, focus, n):
+    """a second chart object driven synchronously from the first one's entry / exit / init actions (the orthogonal-component
+    pattern): what the first chart does must be what it does alone (Lean model of chart A alone)"""
+    rng = run.rng
+    cases = []
+    for _ in range(n):
+        a = charts.gen_chart(rng, nmax=9)
+        b = charts.gen_chart(rng, nmax=7)
+        ops = gen_ops(rng, a, rng.randint(1, 5), q_rate=0.1)
+        trig = {}
+        for i in range(1, a.n + 1):
+            for kind in ("en", "ex", "in"):
+                if rng.random() < 0.35:
+                    trig[(i, kind)] = rng.randrange(b.nsig)
+        cases.append((a, b, ops, trig, rng.randrange(1, b.n + 1)))
+    model_out = batch([(a, ops) for a, _, ops, _, _ in cases], "hsm")
+    for (a, b, ops, trig, bstart), mo in zip(cases, model_out):
+        blog = []
+        bh = charts.probed_class(mhsm.HsmEventProcessor)()
+        bf = b.build(blog, counter=bh._vp_count)
+        berr = []
+        try:
+            bh.start_at(bf[bstart])
+        except Exception as ex:  # noqa
+            berr.append(type(ex).__name__)
+
+        def eff(chart, i, kind, e):
+            if (i, kind) in trig and not berr:
+                try:
+                    bh._vp_calls = 0
+                    bh.dispatch(charts.ev(trig[(i, kind)]))
+                except (mhsm.HsmTopologyException, charts.Diverged) as ex:
+                    berr.append(type(ex).__name__)
+        real, hsm, fns = charts.run_real(a, ops, host="plain",
+                                         builder=lambda log, spied=False, counter=None: a.build(log, spied=spied, counter=counter, effects=eff))
+        model = mo.split(" | ")
+        cj = case_json(a, ops, {"orthogonal": b.to_json(), "triggers": [[i, k, sg] for (i, k), sg in trig.items()], "bstart": bstart})
+        run.traces_validated += 1
+        run.count("two charts, the second dispatched to from the first one's actions")
+        if berr:
+            run.count("second chart stopped (%s)" % berr[0])
+        ok = len(real) == len(model) and all(same_step(m, r) for m, r in zip(model, real))
+        if not ok:
+            first = next((i for i, (m, r) in enumerate(zip(model, real)) if not same_step(m, r)), min(len(model), len(real)))
+            run.violate("%s/other-chart-interferes" % focus, "chart A's op %s behaves differently when its entry/exit/init actions dispatch events "
+                        "to another chart object: %s; alone (model): %s" % (ops[first] if first < len(ops) else "?",
+                                                                             real[first][:200] if first < len(real) else None,
+                                                                             model[first][:200] if first < len(model) else None), cj)
+        run.case(cj, nontrivial=bool(trig))
+
+
 def explore_fallthrough(run, n):
     """C24, second kind of malformed handler (oracle only; the Lean model's malformed handlers answer the parent search): one
     state whose handler falls off the end of its if/elif ladder, i.e. returns no status for every signal it has no clause for,
     the parent search included.  Whatever start_at / dispatch does, it must end normally or raise HsmTopologyException - never
     loop, never fail otherwise"""
     rng = run.rng
+    gen = []
     for _ in range(n):
         c = charts.gen_chart(rng, nmax=9)
         bad = rng.randrange(1, c.n + 1)
         c.fallthrough = {bad}
+        if rng.random() < 0.15:
+            c.fallthrough.add(rng.randrange(1, c.n + 1))
         start = rng.randrange(1, c.n + 1)
         ops = [(0, start)] + [(1, rng.randrange(c.nsig)) for _ in range(rng.randint(1, 5))]
-        host = rng.choice(["plain", "plain", "instr", "queued"])
+        gen.append((c, bad, ops, rng.choice(["plain", "plain", "instr", "queued"]), rng.random() < 0.5))
+    model_out = leanrun.run_driver([c.encode(ops, family="hsmf") for c, _, ops, _, _ in gen])
+    for (c, bad, ops, host, want_spied), mo in zip(gen, model_out):
         saved = charts.CALL_LIMIT
         charts.CALL_LIMIT = 3000
         try:
-            out, hsm, fns = charts.run_real(c, ops, host=host, spied=host != "plain" and rng.random() < 0.5)
+            out, hsm, fns = charts.run_real(c, ops, host=host, spied=host != "plain" and want_spied)
         finally:
             charts.CALL_LIMIT = saved
-        cj = case_json(c, ops, {"host": host, "fallthrough": bad})
+        cj = case_json(c, ops, {"host": host, "fallthrough": sorted(c.fallthrough)})
         run.traces_validated += 1
+        model = mo.split(" | ")
+        if not (len(out) == len(model) and all(same_step(m, r) for m, r in zip(model, out))):
+            run.disagree("hsm full call trace, charts with fall-through handlers (family hsmf)", cj, model, out)
         run.count("fall-through handler: " + ("raise" if out[-1].startswith("raise") else out[-1].split(" ")[0].split(":")[0]))
         if out[-1].startswith("diverge"):
             run.violate("C24/fallthrough-diverges", "a state whose handler returns no status for signals it has no clause for (state %d): op %s "
@@ -360,10 +426,16 @@ def replay(case):
     c = charts.GenChart.from_json(case["case"]["chart"] if "case" in case else case["chart"])
     cc = case.get("case", case)
     ops = [tuple(o) for o in cc["ops"]]
+    if "orthogonal" in cc:
+        print("two-chart case: re-run the check with the recorded VERIF_SEED; chart A:", cc["chart"], "ops", cc["ops"], "chart B:", cc["orthogonal"],
+              "triggers", cc["triggers"])
+        return 0
     if "fallthrough" in cc:
-        c.fallthrough = {cc["fallthrough"]}
+        ft = cc["fallthrough"]
+        c.fallthrough = set(ft if isinstance(ft, list) else [ft])
         charts.CALL_LIMIT = 3000
-        print(charts.run_real(c, ops, host=cc.get("host", "plain"))[0])
+        print("impl :", charts.run_real(c, ops, host=cc.get("host", "plain"))[0])
+        print("model:", leanrun.run_driver([c.encode(ops, family="hsmf")])[0].split(" | "))
         return 0
     real, _, _ = charts.run_real(c, ops, host=cc.get("host", "plain"), spied=cc.get("spied", False))
     model = batch([(c, ops)], "hsm")[0].split(" | ")
